@@ -119,8 +119,15 @@ def runOps : St → List String → List String → List String
         | none => showVal r.2.2
       runOps r.1 ws ((res ++ ";" ++ showObs (obs r.1)) :: acc)
 
+/-- results of all operations, observables after the last one only (deep exhaustive runs) -/
+def lastOnly (parts : List String) : String :=
+  let res := parts.map fun p => (p.splitOn ";").headD ""
+  let obsOf (p : String) : String := ";".intercalate ((p.splitOn ";").drop 1)
+  ",".intercalate res ++ "|" ++ (match parts.getLast? with | some p => obsOf p | none => "")
+
 def handle : List String → Option String
   | "iod" :: ops => some ("|".intercalate (runOps init ops []))
+  | "iodl" :: ops => some (lastOnly (runOps init ops []))
   | _ => none
 
 end Iodata.Drv.IOData
